@@ -29,7 +29,8 @@ from crosshair.util import IgnoreAttempt, UnexploredPath
 #     of asyncio/abc dereference weakrefs constantly: 38% of the run time).  We drop that patch, switch the
 #     cyclic collector off while a path is traced and collect between paths (every 16 paths).  A resulting nondeterminism would surface as
 #     NotDeterministic -> shard HARNESS-ERROR, never as a verdict.
-# (2) format() of exactly-typed concrete atoms (str/int/bool/float/None/classes) skips deep_realize.
+# (2) format() of exactly-typed concrete atoms (str/int/bool/float/None/classes) skips deep_realize;
+#     format() of a dict/list/tuple/set yields a placeholder text instead of realising its symbolic elements.
 import gc as _gc
 import weakref as _weakref
 
@@ -38,12 +39,19 @@ from crosshair import core as _chcore
 _chcore._PATCH_REGISTRATIONS.pop(_weakref.ref.__call__, None)
 _orig_format_patch = _chcore._PATCH_REGISTRATIONS.get(format)
 _ATOMS = (str, int, bool, float, type(None))
+import collections.abc as _abc  # noqa: E402
+
+_CONTAINERS = (_abc.Mapping, _abc.Set, list, tuple)
 
 
 def _fast_format(obj, format_spec=''):
     with NoTracing():
         if (type(obj) in _ATOMS or type(obj) is type) and type(format_spec) is str:
             return format(obj, format_spec)
+        if isinstance(obj, _CONTAINERS) and not isinstance(obj, (str, bytes)):
+            # containers are only ever formatted into error/log messages by plumpy; realising every symbolic value
+            # inside them would split the path per concrete value.  The message text is never part of an oracle.
+            return f'<{type(obj).__name__} of {len(obj)} items>'
     return _orig_format_patch(obj, format_spec)
 
 
